@@ -374,6 +374,37 @@ pub fn plan(property: &str, tier: &str) -> Option<CheckSpec> {
             bound_text = format!("<= 2 spans, <= 3 local spans, nesting <= 3, <= {} operations", g.max_len);
             assumptions.push("the clock itself is not enumerated (it never influences control flow); durations are compared with harness-side monotonic brackets (tolerance 30us + 0.2%), begin times with wall-clock brackets +-10ms".into());
         }
+        "C13" | "C14" => {
+            let rules = [Rule::Liveness, Rule::NoPanic, Rule::Ctx, Rule::Deliver, Rule::Hold, Rule::Prompt, Rule::NoExtra, Rule::Tree, Rule::Attach];
+            let progs = if property == "C13" { future_programs(!quick) } else { stream_sink_programs(!quick) };
+            let n = progs.len();
+            let cycles = if quick { 1 } else { 2 };
+            let mut batches: Vec<Vec<Program>> = Vec::new();
+            for (i, pr) in progs.into_iter().enumerate() {
+                if i % 40 == 0 {
+                    batches.push(Vec::new());
+                }
+                batches.last_mut().unwrap().push(pr.collector(cycles, true, 0));
+            }
+            for programs in batches {
+                for c in [false, true] {
+                    let id = b.jobs.len();
+                    b.jobs.push(Job {
+                        id,
+                        programs: programs.clone(),
+                        cancelable: c,
+                        bound: None,
+                        rules: rules.iter().map(|r| rule_name(*r).to_string()).collect(),
+                        max_execs: 500_000,
+                        prefix: vec![],
+                        expand_only: false,
+                        engine: "SEQ".into(),
+                    });
+                }
+            }
+            rule_text = format!("{n} adapter programs (poll counts, polling thread per poll, drop at every point, nesting, enter_on_poll) x every placement of {cycles} atomic collector cycle(s) at queue-push boundaries x both configurations; the local context is observed before, inside and after every call");
+            bound_text = format!("<= {} polls / calls, 2 threads, {cycles} cycle(s)", if quick { 2 } else { 3 });
+        }
         _ => return None,
     }
     Some(CheckSpec {
